@@ -60,8 +60,8 @@ def rule_R2(ctx, f):
     vcol = ctx.anchor(rid, "Value::collect", f.body("prometheus::value::Value::collect"))
     if vcol:
         ctx.saw(vcol)
-        st = vcol.calls_to(["set_field_type"])
-        ok = len(st) == 1 and is_call(st[0].args[1], "ValueType::metric_type") and peel(st[0].args[1][2][0]) == SELF_FIELD("val_type") and count_range(vcol, [st[0].bb]) == (1, 1)
+        st = type_sites(vcol)
+        ok = len(st) == 1 and is_call(_ty(st[0]), "ValueType::metric_type") and peel(_ty(st[0])[2][0]) == SELF_FIELD("val_type") and count_range(vcol, [st[0].bb]) == (1, 1)
         ctx.ob(rid, "Value::collect|type-from-val_type", ok, "Value::collect must declare metric_type(self.val_type)", site=vcol.raw["span"]["at"])
     # constructors pick the ValueType
     for ty, path, vt_name in (("GenericCounter", "prometheus::counter::GenericCounter::with_opts_and_label_values", "Counter"),
@@ -81,8 +81,8 @@ def rule_R2(ctx, f):
     hc = ctx.anchor(rid, "Histogram::collect", f.body("<prometheus::histogram::Histogram as prometheus::metrics::Collector>::collect"))
     if hc:
         ctx.saw(hc)
-        st = hc.calls_to(["set_field_type"])
-        ctx.ob(rid, "Histogram::collect|type", len(st) == 1 and agg_variant(st[0].args[1]) == "HISTOGRAM" and count_range(hc, [st[0].bb]) == (1, 1), "a histogram family must be declared HISTOGRAM", site=hc.raw["span"]["at"])
+        st = type_sites(hc)
+        ctx.ob(rid, "Histogram::collect|type", len(st) == 1 and agg_variant(_ty(st[0])) == "HISTOGRAM" and count_range(hc, [st[0].bb]) == (1, 1), "a histogram family must be declared HISTOGRAM", site=hc.raw["span"]["at"])
     hm = ctx.anchor(rid, "Histogram::metric", f.body("<prometheus::histogram::Histogram as prometheus::metrics::Metric>::metric"))
     if hm:
         ctx.saw(hm)
@@ -92,8 +92,8 @@ def rule_R2(ctx, f):
     pc = ctx.anchor(rid, "PullingGauge::collect", f.body("<prometheus::pulling_gauge::PullingGauge as prometheus::metrics::Collector>::collect"))
     if pc:
         ctx.saw(pc)
-        st = pc.calls_to(["set_field_type"])
-        ctx.ob(rid, "PullingGauge::collect|type", len(st) == 1 and agg_variant(st[0].args[1]) == "GAUGE", "a pulling gauge family must be declared GAUGE", site=pc.raw["span"]["at"])
+        st = type_sites(pc)
+        ctx.ob(rid, "PullingGauge::collect|type", len(st) == 1 and agg_variant(_ty(st[0])) == "GAUGE", "a pulling gauge family must be declared GAUGE", site=pc.raw["span"]["at"])
     pm = ctx.anchor(rid, "PullingGauge::metric", f.body("prometheus::pulling_gauge::PullingGauge::metric"))
     if pm:
         ctx.saw(pm)
@@ -123,8 +123,8 @@ def rule_R2(ctx, f):
     mc = ctx.anchor(rid, "MetricVecCore::collect", f.body("prometheus::vec::MetricVecCore::collect"))
     if mc:
         ctx.saw(mc)
-        st = mc.calls_to(["set_field_type"])
-        ctx.ob(rid, "MetricVecCore::collect|type", len(st) == 1 and peel(st[0].args[1]) == SELF_FIELD("metric_type") and count_range(mc, [st[0].bb]) == (1, 1),
+        st = type_sites(mc)
+        ctx.ob(rid, "MetricVecCore::collect|type", len(st) == 1 and peel(_ty(st[0])) == SELF_FIELD("metric_type") and count_range(mc, [st[0].bb]) == (1, 1),
                "a vector's family must be declared with the stored metric_type", site=mc.raw["span"]["at"])
     # builders build the matching child type
     for bld, child in (("prometheus::counter::CounterVecBuilder<P>", "GenericCounter::with_opts_and_label_values"), ("prometheus::gauge::GaugeVecBuilder<P>", "GenericGauge::with_opts_and_label_values"),
@@ -135,6 +135,20 @@ def rule_R2(ctx, f):
             ctx.ob(rid, bld.split("::")[-1] + "|child", len(b.calls_to(child)) == 1 and b.term_local(0) == b.calls_to(child)[0].result_term(), "%s must build %s" % (bld, child), site=b.raw["span"]["at"])
 
 
+def type_sites(b):
+    """Where a family gets its declared type: set_field_type(..), or construction with the type field filled in (`MetricFamily { type_: t.into(), .. }` /
+    `MetricFamily { field_type: t, .. }` of a model constructor expanded here).  Each site has args = [the family, the type]."""
+    from pvrules.rules import field_sets
+    seen = field_sets(b, "MetricFamily", "type_", ["set_field_type"])
+    seen += [x for x in field_sets(b, "MetricFamily", "field_type", []) if x not in seen]
+    return seen
+
+
+def _ty(site):
+    """the MetricType a site stores (through the `.into()` of the protobuf model's enum wrapper)"""
+    return peel(site.args[1], transparent=["Into::into", "From::from", "EnumOrUnknown::new", "EnumOrUnknown::from"])
+
+
 def rule_R4(ctx, f):
     rid = "R4"
     ctx.rule(rid, "the declared type of a family is set only by the collector that produced its samples: set_field_type (and direct writes of the type field) occur only in "
@@ -143,10 +157,16 @@ def rule_R4(ctx, f):
     n = 0
     for k in f.order:
         b = f.bodies[k]
-        if b.path.startswith("prometheus::proto::") or b.path.startswith("prometheus::proto_ext::") or b.path.startswith("prometheus::plain_model::") or "::tests::" in b.path:
+        if b.path.startswith("prometheus::proto::") or b.path.startswith("prometheus::proto_ext::") or b.path.startswith("prometheus::plain_model::") or "::tests::" in b.path \
+                or b.path.startswith("<prometheus::proto::") or b.path.startswith("<prometheus::plain_model::"):
             continue
         for c in b.calls():
             if c.matches(["set_field_type", "MetricFamily::set_field_type", "set_type_", "mut_field_type", "clear_field_type", "clear_type_"]):
+                n += 1
+                callers.setdefault(strip_generics(b.path), []).append(c)
+        for c in type_sites(b):
+            if c.callee == "<aggregate>":
+                # a family built with its type in place (a model constructor expanded into this body)
                 n += 1
                 callers.setdefault(strip_generics(b.path), []).append(c)
     bad = {p: cs for p, cs in callers.items() if not (p.endswith("::collect") or p.endswith("Collector>::collect"))}
